@@ -343,7 +343,8 @@ async fn judge(
     for name in &info.changed {
         skip.remove(name);
     }
-    let bound = if info.fault { BOUND_FAULT } else { BOUND_ORDINARY };
+    let bound_fault = if h.patient { 3 * BOUND_FAULT } else { BOUND_FAULT };
+    let bound = if info.fault { bound_fault } else { BOUND_ORDINARY };
     let mut stable_since: Option<Instant> = None;
     let mut polls = 0u64;
     let mut confirm_pending = false;
@@ -400,12 +401,12 @@ async fn judge(
         // the bound runs from the moment the mock flushed the step's last event; for a fault (and
         // for an event nobody was connected to receive) from the fault itself
         let deadline = if info.fault {
-            t_step + BOUND_FAULT
+            t_step + bound_fault
         } else {
             match status.step_flush {
                 Some(f) => f + BOUND_ORDINARY,
                 None if status.log_len == mark => t_step + BOUND_ORDINARY,
-                None => t_step + BOUND_FAULT,
+                None => t_step + bound_fault,
             }
         };
         if now >= deadline {
